@@ -108,6 +108,9 @@ def payload_for(rng, cls, k):
 def build(rng, it):
     r, k = it['route'], it['k']
     sel = {'bmc': 'O', 'fixture': 'X', 'plain': rng.choice(['B', 'Q', 'H', 'a'])}[r['creator']]
+    if r['creator'] == 'plain' and r['kind'] == 'ED' and rng.random() < .35:
+        # the creator of an extended user data section is a byte of the section itself: any of the 256 values
+        sel = rng.choice(['\xdf', '\xb5', '\x80', '\xff', '\xe9', '\x00', '\x7f'])
     if r['comp'] == 'builtin':
         comp = [0x20, 0x00]
     elif r['comp'] == 'served':
